@@ -220,7 +220,9 @@ func (z *zzBub) checkAsked(sid, entering string) {
 // even invoked afterwards, has made the documented transition: it is not registered any more.
 func (z *zzBub) checkAcceptedRequests() {
 	sk := z.sk
-	if !sk.Started() || len(sk.newQueuedWorkSpaceCh) > 0 || sk.queue.Size() > 0 {
+	// (called by the scheduler itself while every goroutine is parked: the queue is read without
+	// its mutex, which a parked plotter may hold)
+	if !sk.Started() || len(sk.newQueuedWorkSpaceCh) > 0 || sk.queue.Prque.Size() > 0 {
 		return
 	}
 	for _, sid := range z.sids {
